@@ -95,7 +95,7 @@ def replay_entry(ctx, drv, rec, info):
 def run(ctx):
     quick = ctx.tier == "quick"
     ctx.rule = ("configurations: 2-4 threads over 1-3 endpoint pairs (families pair, paircb = callback endpoints, twosock, "
-                "threenode, reinc = a later endpoint re-using a key, lone = no peer, shared = two threads on one key), "
+                "threenode, reinc = a later endpoint re-using a key, reconn = a (callback) receiver that stays connected while the sender disconnects, reconnects with the same socket id and sends again, lone = no peer, shared = two threads on one key), "
                 "<= 4 send/recv/recv-nonblocking ops between connect and optional disconnect; each is run on the real "
                 "hub under seeded random (pre-emption probability 0.03..0.7) and PCT-style (depth 2..5) line-level "
                 "schedules. A case = (configuration, executed access schedule); non-trivial if at least one message "
